@@ -24,8 +24,33 @@ type SrvOpt struct {
 	Auth    bool
 	Flush   bool
 	Debug   int
+	Locked    bool // the implementation serialises its operations with a lock of its own, held until the operation (answer included) returns
 	NoConnOps bool // the implementation has FidDestroy but neither ConnOpened nor ConnClosed (like the library's own Fsrv)
 }
+
+// fsLocked is a scripted implementation whose every operation runs under one lock of
+// its own, taken on entry and released when the operation returns - after it has
+// answered. (A lock owned by the scheduler: a goroutine waiting for it is parked.)
+type fsLocked struct {
+	*FS
+	mu *vs.Sem
+}
+
+func (l fsLocked) with(f func(*go9p.SrvReq), r *go9p.SrvReq) {
+	l.mu.Acquire()
+	defer l.mu.Release()
+	f(r)
+}
+func (l fsLocked) Attach(r *go9p.SrvReq) { l.with(l.FS.Attach, r) }
+func (l fsLocked) Walk(r *go9p.SrvReq)   { l.with(l.FS.Walk, r) }
+func (l fsLocked) Open(r *go9p.SrvReq)   { l.with(l.FS.Open, r) }
+func (l fsLocked) Create(r *go9p.SrvReq) { l.with(l.FS.Create, r) }
+func (l fsLocked) Read(r *go9p.SrvReq)   { l.with(l.FS.Read, r) }
+func (l fsLocked) Write(r *go9p.SrvReq)  { l.with(l.FS.Write, r) }
+func (l fsLocked) Clunk(r *go9p.SrvReq)  { l.with(l.FS.Clunk, r) }
+func (l fsLocked) Remove(r *go9p.SrvReq) { l.with(l.FS.Remove, r) }
+func (l fsLocked) Stat(r *go9p.SrvReq)   { l.with(l.FS.Stat, r) }
+func (l fsLocked) Wstat(r *go9p.SrvReq)  { l.with(l.FS.Wstat, r) }
 
 // fsNoConn shows the framework the request and fid operations of a scripted
 // implementation and nothing else.
@@ -35,12 +60,16 @@ type fsNoConn struct {
 }
 
 func NewSrvH(fs *FS, o SrvOpt) *SrvH {
+	resetPlainGlobals()
 	s := &go9p.Srv{Msize: o.Msize, Dotu: o.Dotu, Maxpend: o.Maxpend, Debuglevel: o.Debug}
 	s.Id = "srv"
 	s.Upool = newUsers()
 	var ops interface{} = fs.ops(o.Auth, o.Flush)
 	if o.NoConnOps {
 		ops = fsNoConn{fs, fs}
+	}
+	if o.Locked {
+		ops = fsLocked{fs, vs.NewSem(1)}
 	}
 	if !s.Start(ops) {
 		panic("Srv.Start refused the scripted implementation")
